@@ -46,8 +46,10 @@ def drive_case(case, extra):
         _IMPORTER = ASTToPymbolic()      # one long-lived instance per worker process
     rec["ai2"] = ser.obj_to_json(lambda: _IMPORTER(tree.body))
     code = compile(tree, "<c07>", "eval")
+    mask = case.get("ev") or [True] * len(_envs(extra))
     rec["py"] = [ser.call_to_json(lambda: eval(code, {"__builtins__": {}}, dict(env)))  # noqa: S307
-                 for env in _envs(extra)]
+                 if m else {"k": "unrep"}     # outside the model's bounds there (C07_Gen.EvMask)
+                 for env, m in zip(_envs(extra), mask)]
     return rec
 
 
